@@ -56,10 +56,6 @@ def callOf : String → Option Call
 def stepC14 (st : DState) (line : String) : DState × String :=
   match fields line with
   | ["new", cs] => ({ sh := Shared.init, creds := if cs == "-" then [] else (cs.splitOn ",") }, "ok")
-  | [op, u, a, b] =>
-    match callOf op, a.toNat?, b.toNat? with
-    | some c, some x0, some x1 => ({ st with sh := compact (doCollect st.sh c (uname u) x0 x1) }, "ok")
-    | _, _, _ => (st, "bad-op")
   | ["snap"] => let (sh, r) := doSnapshot st.sh false; ({ st with sh := compact sh }, showResult r)
   | ["reset"] => let (sh, r) := doSnapshot st.sh true; ({ st with sh := compact sh }, showResult r)
   | "stats" :: n :: vs =>
@@ -71,6 +67,10 @@ def stepC14 (st : DState) (line : String) : DState × String :=
     match apiUser st.sh (st.creds.contains u) u with
     | some c => (st, s!"200 {usernameJSONName}={u} {jsonPairs c}")
     | none => (st, "404")
+  | [op, u, a, b] =>
+    match callOf op, a.toNat?, b.toNat? with
+    | some c, some x0, some x1 => ({ st with sh := compact (doCollect st.sh c (uname u) x0 x1) }, "ok")
+    | _, _, _ => (st, "bad-op")
   | _ => (st, "bad-op")
 
 def main : IO Unit := Driver.run ({ sh := Shared.init, creds := [] } : DState) stepC14
